@@ -5,7 +5,8 @@
 From Coq Require Import List NArith ZArith Bool.
 Import ListNotations.
 Require Import Verif.Lib.Wire Verif.Gen.Facts_C10 Verif.Model.C10 Verif.Proofs.C10 Verif.Proofs.C10_sat
-        Verif.Proofs.C10_on Verif.Proofs.C10_codec Verif.Proofs.C10_real.
+        Verif.Proofs.C10_on Verif.Proofs.C10_codec Verif.Proofs.C10_real
+        Verif.Proofs.C10_gen Verif.Proofs.C10_gen2.
 
 (* constants read from session.py: the three comparisons are `>`, the limit is 4064, the payload
    is (accessed, created, state), each wrapped dict method wraps the dict method of its own name *)
@@ -150,3 +151,99 @@ Theorem C10_chain_refines_spec_real_closed : forall o l, wf_chain l ->
   Forall2 ok_at (run_chain (real_O toy_mac 1) o None l) (spec_chain (real_O toy_mac 1) o None true l).
 Proof. exact chain_refines_spec_real_closed. Qed.
 Print Assumptions C10_chain_refines_spec_real_closed.
+
+(* ==== the program regenerated from src/pyramid/session.py on this run (Gen/Prog_C10.v, by
+   harness/c10/translate.py) equals the reference model, for all inputs ==== *)
+Theorem C10_generated_changed_is_model : forall s, gen_changed s = mark s.
+Proof. exact gen_changed_is_model. Qed.
+Print Assumptions C10_generated_changed_is_model.
+
+Theorem C10_generated_manage_accessed_is_model : forall o now w s,
+  gen_manage_accessed o now w s = w (apply_wrap o now s 1%N).
+Proof. exact gen_manage_accessed_is_model. Qed.
+Print Assumptions C10_generated_manage_accessed_is_model.
+
+Theorem C10_generated_manage_changed_is_model : forall o now w s,
+  gen_manage_changed o now w s = w (apply_wrap o now s 2%N).
+Proof. exact gen_manage_changed_is_model. Qed.
+Print Assumptions C10_generated_manage_changed_is_model.
+
+(* every operation: the regenerated wrappers (chosen by the class table) around the regenerated method
+   bodies (invalidate, flash, pop_flash, peek_flash, new_csrf_token, get_csrf_token, changed) *)
+Theorem C10_generated_step_is_model : forall o p now s, gstep o p now s = step o p now s.
+Proof. exact gstep_is_model. Qed.
+Print Assumptions C10_generated_step_is_model.
+
+Theorem C10_generated_init_is_model : forall O o c now, gen_init O o c now = init O o c now.
+Proof. exact gen_init_is_model. Qed.
+Print Assumptions C10_generated_init_is_model.
+
+Theorem C10_generated_set_cookie_is_model : forall O o exc s, gen_set_cookie O o exc s = set_cookie O o s exc.
+Proof. exact gen_set_cookie_is_model. Qed.
+Print Assumptions C10_generated_set_cookie_is_model.
+
+Theorem C10_generated_chain_is_model : forall O o l last, grun_chain O o last l = run_chain O o last l.
+Proof. exact grun_chain_is_model. Qed.
+Print Assumptions C10_generated_chain_is_model.
+
+(* ==== the property, literally about the regenerated program ==== *)
+Theorem C10_chain_refines_spec_generated : forall O o, rt_b64 O -> rt_ser O -> mac_len O ->
+  forall l last sv, inv O o last sv ->
+  Forall2 ok_at (grun_chain O o last l) (spec_chain O o sv true l).
+Proof. exact generated_chain_refines_spec. Qed.
+Print Assumptions C10_chain_refines_spec_generated.
+
+Theorem C10_chain_refines_spec_real_generated : forall macf n o l,
+  (forall k m, length (macf k m) = n) -> (forall k m, Forall (fun b => (b < 256)%N) (macf k m)) -> wf_chain l ->
+  Forall2 ok_at (grun_chain (real_O macf n) o None l) (spec_chain (real_O macf n) o None true l).
+Proof. exact generated_chain_refines_spec_real. Qed.
+Print Assumptions C10_chain_refines_spec_real_generated.
+
+Theorem C10_mutation_implies_dirty_generated : forall o p t s,
+  st (fst (gstep o p t s)) <> st s -> dirty (fst (gstep o p t s)) = true.
+Proof. exact generated_mutation_implies_dirty. Qed.
+Print Assumptions C10_mutation_implies_dirty_generated.
+
+Theorem C10_persistence_generated : forall O o s exc c now, rt_b64 O -> rt_ser O -> mac_len O ->
+  gfinish O o s exc = FCookie c ->
+  expired o now (tval (accessed s)) = false ->
+  exists s0, gen_init O o (Some c) now = IOk s0 /\ st s0 = st s /\ tval (created s0) = tval (created s)
+             /\ isnew s0 = false /\ dirty s0 = false /\ tval (renewed s0) = tval (accessed s).
+Proof. exact generated_persistence. Qed.
+Print Assumptions C10_persistence_generated.
+
+Theorem C10_timeout_boundary_generated : forall O o s exc c t, rt_b64 O -> rt_ser O -> mac_len O ->
+  gfinish O o s exc = FCookie c -> timeout o = Some t ->
+  (exists s0, gen_init O o (Some c) (tval (accessed s) + t * tick) = IOk s0 /\ st s0 = st s /\ isnew s0 = false)
+  /\ (exists s0, gen_init O o (Some c) (tval (accessed s) + t * tick + 1) = IOk s0 /\ st s0 = [] /\ isnew s0 = false
+                 /\ tval (created s0) = tval (created s)).
+Proof. exact generated_timeout_boundary. Qed.
+Print Assumptions C10_timeout_boundary_generated.
+
+Theorem C10_cookie_iff_dirty_generated : forall O o s exc,
+  gfinish O o s exc <> FNone <-> (dirty s = true /\ (soe o = true \/ exc = false)).
+Proof. exact generated_cookie_iff_dirty. Qed.
+Print Assumptions C10_cookie_iff_dirty_generated.
+
+Theorem C10_tamper_new_empty_generated : forall O o c now,
+  gen_init O o (Some c) now = IOk (fresh_sess now)
+  \/ exists p, unb64 O c = Some (mac O (key o) p ++ p).
+Proof. exact generated_tamper_new_empty. Qed.
+Print Assumptions C10_tamper_new_empty_generated.
+
+Theorem C10_oversize_refused_generated : forall O o s exc,
+  dirty s = true -> (soe o = true \/ exc = false) ->
+  (Z.of_nat (length (cookie_of O o s)) > Z.of_N cookie_limit)%Z ->
+  gfinish O o s exc = FOversize.
+Proof. exact generated_oversize_refused. Qed.
+Print Assumptions C10_oversize_refused_generated.
+
+Theorem C10_reissue_boundary_generated : forall o p t s r,
+  op_cls p (st s) = CAcc -> reissue o = Some r ->
+  dirty (fst (gstep o p t s)) = dirty s || Z.gtb (int_time t * tick - tval (renewed s)) (r * tick).
+Proof. exact generated_reissue_boundary. Qed.
+Print Assumptions C10_reissue_boundary_generated.
+
+Theorem C10_created_preserved_generated : forall o l s, created (fst (grun_ops o l s)) = created s.
+Proof. exact generated_created_preserved. Qed.
+Print Assumptions C10_created_preserved_generated.
